@@ -46,6 +46,7 @@ type heartbeat struct {
 type wstats struct {
 	transitions, evals, skipped, restores, reopens, dumps int
 	closureCalls, panicsPropagated, commitsChanging       int
+	chainPaths, chainSteps, chainNoRestore                int
 	perKO                                                 map[string]int
 	perKOns                                               map[string]int64
 	nontrivial                                            []uint64
@@ -62,6 +63,9 @@ func (s *wstats) add(o *wstats) {
 	s.closureCalls += o.closureCalls
 	s.panicsPropagated += o.panicsPropagated
 	s.commitsChanging += o.commitsChanging
+	s.chainPaths += o.chainPaths
+	s.chainSteps += o.chainSteps
+	s.chainNoRestore += o.chainNoRestore
 	if s.perKO == nil {
 		s.perKO = map[string]int{}
 		s.roNotConverted = map[string]int{}
@@ -137,8 +141,11 @@ type worker struct {
 	path string
 	nofl bool
 	cur  string // verified content of the real namespace; "" when unknown
-	hb   atomic.Pointer[heartbeat]
-	st   wstats
+
+	batchFast bool
+	sampled   map[string]uint64
+	hb        atomic.Pointer[heartbeat]
+	st        wstats
 }
 
 func (w *worker) open(create bool) error {
@@ -152,25 +159,34 @@ func (w *worker) open(create bool) error {
 	if err != nil {
 		return err
 	}
-	w.tuneBatch()
+	fast := w.tuneBatch()
+	if create {
+		w.batchFast = fast
+	} else if fast != w.batchFast {
+		return fmt.Errorf("MaxBatchSize knob settable=%v after reopen, %v at creation", fast, w.batchFast)
+	}
 	return nil
 }
 
 // tuneBatch sets bbolt's MaxBatchSize knob to 1 on the opened handle so that a
 // lone Batch call starts at once instead of waiting for the 10ms batch timer.
 // It changes latency only.
-func (w *worker) tuneBatch() {
-	defer func() { recover() }()
-	w.g.batchFast = false
+func (w *worker) tuneBatch() (ok bool) {
+	defer func() {
+		if recover() != nil {
+			ok = false
+		}
+	}()
 	v := reflect.ValueOf(w.db)
 	if v.Kind() != reflect.Ptr || v.Elem().Kind() != reflect.Struct {
-		return
+		return false
 	}
 	f := v.Elem().FieldByName("MaxBatchSize")
 	if f.IsValid() && f.CanSet() && f.Kind() == reflect.Int {
 		f.SetInt(1)
-		w.g.batchFast = true
+		return true
 	}
+	return false
 }
 
 func (w *worker) beat(phase string, st *state, it int) {
@@ -582,6 +598,13 @@ func (w *worker) sample(ko KO, st *state, ii int, x *txrun, gotKey string) {
 	g := w.g
 	o := order(w.ex.uidx, st.idx, ii)
 	lbl := ko.label()
+	if best, ok := w.sampled[lbl]; ok && best <= o {
+		return // this worker already offered a smaller one
+	}
+	if w.sampled == nil {
+		w.sampled = map[string]uint64{}
+	}
+	w.sampled[lbl] = o
 	g.mu.Lock()
 	defer g.mu.Unlock()
 	s := g.samples[lbl]
@@ -761,6 +784,10 @@ func (g *global) explore(u *Universe, uidx int) {
 		}
 	}
 
+	if exhaustive {
+		ex.chains()
+	}
+
 	g.mu.Lock()
 	for _, s := range ex.states[:expanded] {
 		g.allState[s.key] = true
@@ -785,6 +812,70 @@ func (g *global) explore(u *Universe, uidx int) {
 	})
 	g.bounds = append(g.bounds, u.bounds())
 	g.mu.Unlock()
+}
+
+// chains replays, for every explored state, the whole sequence of committed
+// transactions that leads to it from the initial state on one handle without
+// restoring in between; before each step the same program is also run under
+// Update with a failing and with a panicking closure. The content after every
+// step is compared as in the search.
+func (ex *explorer) chains() {
+	u, g := ex.u, ex.g
+	sib := map[[2]int]int{} // (program, kind/outcome index) -> item
+	for ii, it := range u.items {
+		sib[[2]int{int(it.prog), int(it.ko)}] = ii
+	}
+	var failing []int
+	for ki, ko := range u.kos {
+		if ko.Kind == kUpdate && ko.Out != oNil && !ko.Reopen && ko.MaxOps == 0 {
+			failing = append(failing, ki)
+		}
+	}
+	var targets []*state
+	for _, s := range ex.states {
+		if s.parent >= 0 && s.depth >= 2 {
+			targets = append(targets, s)
+		}
+	}
+	var next int64
+	var wg sync.WaitGroup
+	for _, w := range g.workers {
+		wg.Add(1)
+		go func(w *worker) {
+			defer wg.Done()
+			for {
+				i := int(atomic.AddInt64(&next, 1) - 1)
+				if i >= len(targets) || g.run.Expired() {
+					break
+				}
+				var path []*state
+				for s := targets[i]; s.parent >= 0; s = ex.states[s.parent] {
+					path = append([]*state{s}, path...)
+				}
+				w.st = wstats{perKO: map[string]int{}, roNotConverted: map[string]int{}, perKOns: map[string]int64{}}
+				w.st.chainPaths++
+				for n, s := range path {
+					from := ex.states[s.parent]
+					for _, ki := range failing {
+						if ii, ok := sib[[2]int{int(u.items[s.via].prog), ki}]; ok {
+							w.runItem(from, ii)
+						}
+					}
+					if n > 0 && w.cur == from.key {
+						w.st.chainNoRestore++
+					}
+					w.runItem(from, s.via)
+					w.st.chainSteps++
+				}
+				w.hb.Store(nil)
+				g.mu.Lock()
+				g.tot.add(&w.st)
+				g.mu.Unlock()
+			}
+			w.hb.Store(nil)
+		}(w)
+	}
+	wg.Wait()
 }
 
 func (g *global) noteNotExhaustive(s string) {
